@@ -236,7 +236,8 @@ class DCAwareRoundRobinPolicy(LoadBalancingPolicy):
 
     def populate(self, cluster, hosts):
         for dc, dc_hosts in groupby(hosts, lambda h: self._dc(h)):
-            self._dc_live_hosts[dc] = tuple(set(dc_hosts))
+            # hosts of one datacenter need not be adjacent in `hosts`
+            self._dc_live_hosts[dc] = tuple(set(self._dc_live_hosts.get(dc, ()) + tuple(dc_hosts)))
 
         if not self.local_dc:
             self._endpoints = [
